@@ -717,7 +717,8 @@ def single_caller_helpers(facts, anchors, pinned):
             continue
         if any(cc.fn == fn for cc in h.calls()):
             continue   # recursive
-        if (partial or len({b.def_ for (b, c) in ss}) < len(ss)) and any(cc.fn == "fjall::batch::Batch::commit" for cc in h.calls()) \
+        outside_store_methods = any(not facts.enclosing_fn(b).startswith("xs::store::Store::") or "{closure" in b.def_ for (b, c) in ss)
+        if (partial or outside_store_methods or len({b.def_ for (b, c) in ss}) < len(ss)) and any(cc.fn == "fjall::batch::Batch::commit" for cc in h.calls()) \
                 and any(cc.fn == "fjall::keyspace::Keyspace::batch" for cc in h.calls()):
             continue   # role: a function that builds AND commits a journal batch and is shared beyond the anchors (Store::remove and
             #            the GC helpers calling one `remove_frame`) is a unit of atomicity - rules look at it as a function
